@@ -73,6 +73,12 @@ CHECKS = {
         text='The maps are affine reparameterisations, so each is checked pointwise on a u grid with tolerance 1e-9*size (1e-7 where an Arc is re-created from end points). Path crops are checked for end points, joined pieces, no zero-length pieces, and length against length(T0,T1), for every ordered pair of the T alphabet (joints included).',
         note='Trusted: point() (C03/C04) and length() (C06). Grid only.',
         design='4/C09'),
+    'C10': dict(
+        level='model_checking',
+        technique='explicit-state BFS closure of the affine-matrix monoid generated by 9 generators up to a depth (states = distinct matrices), each state applied through the real transform() to every library segment and path; exhaustive argument grids for translated/rotated/scaled',
+        text='States are the distinct 3x3 matrices reachable by products of rotations, uniform/non-uniform scales, reflection, axis swap, shear and translation (depth 3 quick, 4 thorough); the oracle depends only on the matrix, so rounding the entries is a sound state key. In every state transform(curve, M).point(t) is compared with M applied to point(t) for all four segment classes and for paths, and exactly coincident joints (closing joint included) must stay exactly coincident.',
+        note='Trusted: point() of the original curve. Matrices outside the generated monoid slice are not covered.',
+        design='4/C10'),
 }
 
 NOT_YET = {}
